@@ -1,4 +1,4 @@
-import OpacusLean.Lemmas.MhaIndex
+import OpacusLean.Lemmas.MhaRefine
 /-! # C14 — DPMultiheadAttention computes the same function as nn.MultiheadAttention -/
 namespace Opacus.C14
 open Opacus.Mha
@@ -9,6 +9,146 @@ theorem head_split_merge_roundtrip {α T B h d} (x : Fin T → Fin B → Fin (h 
     (y : Fin (B * h) → Fin T → Fin d → α) :
     mergeHeads (splitHeads x) = x ∧ splitHeads (mergeHeads y) = y :=
   ⟨mergeHeads_splitHeads x, splitHeads_mergeHeads y⟩
+
+/-! ## refinement of the specification -/
+
+section
+variable {R : Type} [AddZeroClass R] [Mul R]
+
+/-- **mha_refines_spec**, `batch_first=False`: for every number of heads `h`, head dimension `d`
+(`embed_dim = h·d`), `kdim`, `vdim`, lengths `L S`, batch size `B`, with or without biases,
+`add_bias_kv` (`nkv`), `add_zero_attn` (`nz`), every attention mask (2-D / 3-D, boolean / additive)
+and key-padding mask of the shapes `nn.MultiheadAttention` accepts, every scalar structure with
+`x + 0 = x`, and every choice of softmax / −∞ / scaling: the model of
+`DPMultiheadAttention.forward` passes all its checks and returns exactly the specification's
+output, averaged weights and pre-softmax scores.  (A floating key-padding mask needs the repaired
+`kpmFloat` variant, see `kpm_float_rejected_counterexample`.) -/
+theorem mha_refines_spec_seq_first {h d Kd Vd nkv B L S : Nat} (ops : Ops R) (vr : Variant)
+    (P : Params R h d Kd Vd nkv) (nz : Nat) (query : Fin L → Fin B → Fin (h * d) → R)
+    (key : Fin S → Fin B → Fin Kd → R) (value : Fin S → Fin B → Fin Vd → R)
+    (m : SMask R (B * h) L S) (kp : SKpm R B S) (hv : kp.isAdd = true → vr.kpmFloat = .repaired) :
+    forwardSF ops vr P nz query key value m.toModel kp.toModel
+      = .ok (spec ops P nz query key value m kp) := by
+  simp only [forwardSF, get₃_ofFn₃, checkMask_toModel, core_eq _ _ _ _ _ _ _ _ _ _ hv, bind,
+    Except.bind, pure, Except.pure, spec, get₂_ofFn₂, mergeHeads_heads, avgWeights_heads]
+
+/-- **mha_refines_spec**, `batch_first=True` with the repaired head merge and mask check -/
+theorem mha_refines_spec_batch_first_repaired {h d Kd Vd nkv B L S : Nat} (ops : Ops R) (vr : Variant)
+    (P : Params R h d Kd Vd nkv) (nz : Nat) (query : Fin B → Fin L → Fin (h * d) → R)
+    (key : Fin B → Fin S → Fin Kd → R) (value : Fin B → Fin S → Fin Vd → R)
+    (m : SMask R (B * h) L S) (kp : SKpm R B S) (hv : kp.isAdd = true → vr.kpmFloat = .repaired)
+    (hm : vr.merge = .repaired) (hc : vr.maskCheck = .repaired) :
+    forwardBF ops vr P nz query key value m.toModel kp.toModel
+      = .ok (specBF ops P nz query key value m kp) := by
+  have hq : transpose01 (scaleQ ops (lin3 P.q query)) = scaleQ ops (lin3 P.q (transpose01 query)) := rfl
+  have hk : transpose01 (lin3 P.k key) = lin3 P.k (transpose01 key) := rfl
+  have hvv : transpose01 (lin3 P.v value) = lin3 P.v (transpose01 value) := rfl
+  simp only [forwardBF, hm, hc, get₃_ofFn₃, checkMask_toModel, hq, hk, hvv,
+    core_eq _ _ _ _ _ _ _ _ _ _ hv, bind, Except.bind, pure, Except.pure, specBF, spec, get₂_ofFn₂,
+    mergeHeads_heads, avgWeights_heads]
+  rfl
+
+/-- **avg_weights_eq**: in both layouts and for BOTH merge variants (the as-coded batch_first
+merge only damages the output), the returned weights are the head average
+`(Σ_head softmax(scores_{b,head})) / h` of the specification, and the pre-softmax scores are the
+specification's. -/
+theorem avg_weights_eq {h d Kd Vd nkv B L S : Nat} (ops : Ops R) (vr : Variant)
+    (P : Params R h d Kd Vd nkv) (nz : Nat) (query : Fin B → Fin L → Fin (h * d) → R)
+    (key : Fin B → Fin S → Fin Kd → R) (value : Fin B → Fin S → Fin Vd → R)
+    (m : SMask R (B * h) L S) (kp : SKpm R B S) (hv : kp.isAdd = true → vr.kpmFloat = .repaired)
+    (hc : vr.maskCheck = .repaired) :
+    ∃ o, forwardBF ops vr P nz query key value m.toModel kp.toModel = .ok o
+      ∧ o.w = (specBF ops P nz query key value m kp).w
+      ∧ o.scores = (specBF ops P nz query key value m kp).scores
+      ∧ ∀ b l s, o.w b l s = ops.divH (sumFin h (fun hd =>
+          ops.softmax _ (o.scores (enc2 b hd) l) s)) := by
+  have hq : transpose01 (scaleQ ops (lin3 P.q query)) = scaleQ ops (lin3 P.q (transpose01 query)) := rfl
+  have hk : transpose01 (lin3 P.k key) = lin3 P.k (transpose01 key) := rfl
+  have hvv : transpose01 (lin3 P.v value) = lin3 P.v (transpose01 value) := rfl
+  simp only [forwardBF, hc, get₃_ofFn₃, checkMask_toModel, hq, hk, hvv,
+    core_eq _ _ _ _ _ _ _ _ _ _ hv, bind, Except.bind, pure, Except.pure, specBF, spec, get₂_ofFn₂]
+  refine ⟨_, rfl, ?_, rfl, ?_⟩
+  · simp only [avgWeights_heads]
+  · intro b l s
+    simp only [specHead, get₂_ofFn₂, avgWeights, decL_enc2, decR_enc2]
+
+end
+
+/-! ## what the as-coded `batch_first` path still gets right (`_partial`) -/
+
+/-- the as-coded merge `view(B, L, E)` of the `(B·h, L, d)` buffer, by flat index -/
+theorem mergeHeadsBFCoded_apply {α L B h d} (y : Fin (B * h) → Fin L → Fin d → α) (b : Fin B)
+    (l : Fin L) (e : Fin (h * d)) :
+    mergeHeadsBFCoded y b l e = flat3 y ((enc2 (enc2 b l) e).cast (bf_shape L B h d).symm) := rfl
+
+/-- **batch_first_merge_single_head_partial**: with one head the as-coded merge is the correct one -/
+theorem batch_first_merge_single_head_partial {α L B d} (y : Fin (B * 1) → Fin L → Fin d → α) :
+    mergeHeadsBFCoded y = transpose01 (mergeHeads y) := by
+  funext b l e
+  rw [mergeHeadsBFCoded_apply]
+  simp only [transpose01]
+  rw [mergeHeads_apply']
+  have : (Fin.cast (bf_shape L B 1 d).symm (enc2 (enc2 b l) e))
+      = enc2 (enc2 (enc2 b (decL e)) l) (decR e) := by
+    apply Fin.ext
+    have h0 : (decL e : Fin 1).val = 0 := by omega
+    have he : e.val = (decR e : Fin d).val := by
+      have := congrArg Fin.val (enc2_dec e)
+      simp only [enc2, h0] at this
+      omega
+    simp only [enc2, Fin.val_cast, h0]
+    rw [he]
+    simp only [decR]
+    ring
+  rw [this, flat3_enc]
+
+/-- **batch_first_merge_single_target_partial**: with target length 1 the as-coded merge is correct -/
+theorem batch_first_merge_single_target_partial {α B h d} (y : Fin (B * h) → Fin 1 → Fin d → α) :
+    mergeHeadsBFCoded y = transpose01 (mergeHeads y) := by
+  funext b l e
+  rw [mergeHeadsBFCoded_apply]
+  simp only [transpose01]
+  rw [mergeHeads_apply']
+  have : (Fin.cast (bf_shape 1 B h d).symm (enc2 (enc2 b l) e))
+      = enc2 (enc2 (enc2 b (decL e)) l) (decR e) := by
+    apply Fin.ext
+    have h0 : l.val = 0 := by omega
+    have he := congrArg Fin.val (enc2_dec e)
+    simp only [enc2] at he
+    simp only [enc2, Fin.val_cast, h0]
+    rw [← he]
+    ring
+  rw [this, flat3_enc]
+
+section
+variable {R : Type} [Add R] [Mul R] [Zero R]
+
+/-- with a single head the whole as-coded `batch_first` forward is the repaired one -/
+theorem batch_first_single_head_partial {d Kd Vd nkv B L S : Nat} (ops : Ops R) (mc kf : V)
+    (P : Params R 1 d Kd Vd nkv) (nz : Nat) (query : Fin B → Fin L → Fin (1 * d) → R)
+    (key : Fin B → Fin S → Fin Kd → R) (value : Fin B → Fin S → Fin Vd → R) (am : AttnMask R) (kp : Kpm R) :
+    forwardBF ops ⟨.asCoded, mc, kf⟩ P nz query key value am kp
+      = forwardBF ops ⟨.repaired, mc, kf⟩ P nz query key value am kp := by
+  simp only [forwardBF, batch_first_merge_single_head_partial]
+
+/-- **batch_first_mask_square_partial**: the as-coded size check compares with `(B, B)`; when
+`L = S = B` that is the right check -/
+theorem batch_first_mask_square_partial {h d Kd Vd nkv n : Nat} (ops : Ops R) (mg kf : V)
+    (P : Params R h d Kd Vd nkv) (nz : Nat) (query : Fin n → Fin n → Fin (h * d) → R)
+    (key : Fin n → Fin n → Fin Kd → R) (value : Fin n → Fin n → Fin Vd → R) (am : AttnMask R) (kp : Kpm R) :
+    forwardBF ops ⟨mg, .asCoded, kf⟩ P nz query key value am kp
+      = forwardBF ops ⟨mg, .repaired, kf⟩ P nz query key value am kp := rfl
+
+/-- **mask_shape_rejected**: a 2-D mask whose shape is not `(L, S)` is rejected (as torch does) -/
+theorem mask_shape_rejected {h d Kd Vd nkv B L S : Nat} (ops : Ops R) (vr : Variant)
+    (P : Params R h d Kd Vd nkv) (nz : Nat) (query : Fin L → Fin B → Fin (h * d) → R)
+    (key : Fin S → Fin B → Fin Kd → R) (value : Fin S → Fin B → Fin Vd → R) (kp : Kpm R)
+    (r c : Nat) (hrc : ¬ (r = L ∧ c = S)) (vb : Fin r → Fin c → Bool) (vf : Fin r → Fin c → R) :
+    forwardSF ops vr P nz query key value (.b2 r c vb) kp = .error .maskSize2
+    ∧ forwardSF ops vr P nz query key value (.f2 r c vf) kp = .error .maskSize2 := by
+  simp [forwardSF, checkMask, hrc, bind, Except.bind]
+
+end
 
 /-! ## witnesses over ℤ (replayed on the real code by the harness) -/
 
@@ -45,6 +185,26 @@ theorem batch_first_mask_rejected_counterexample :
         (SMask.toModel (Bh := 1 * 2) (.f2 (fun (_ : Fin 2) (_ : Fin 1) => (0 : Int)))) .none) = true
     ∧ outList (forwardBF wOps ⟨.repaired, .repaired, .repaired⟩ wP 0 wQuery wKey wValue
         (SMask.toModel (Bh := 1 * 2) (.f2 (fun (_ : Fin 2) (_ : Fin 1) => (0 : Int)))) .none) = some [1, 2, 1, 2] := by
+  decide
+
+/-- `embed_dim = 1`, one head, identity projections -/
+def wP1 : Params Int 1 1 1 1 0 := ⟨idLin 1, idLin 1, idLin 1, idLin 1, fun i => i.elim0, fun i => i.elim0⟩
+
+def isOk {α} (r : Except Err α) : Bool :=
+  match r with
+  | .ok _ => true
+  | .error _ => false
+
+/-- **kpm_float_rejected_counterexample**: L = 1, S = 2, B = 1: a floating (additive, here all-zero)
+`key_padding_mask` of the shape `(B, S)` that `nn.MultiheadAttention` accepts raises in the as-coded
+`masked_fill`; the repaired variant adds it. -/
+theorem kpm_float_rejected_counterexample :
+    isErr .kpmDtype (forwardSF (L := 1) (B := 1) (S := 2) wOps ⟨.repaired, .repaired, .asCoded⟩ wP1 0
+      (fun _ _ _ => 1) (fun _ _ _ => 1) (fun s _ _ => s.val + 1) .none
+      (SKpm.toModel (.add (fun (_ : Fin 1) (_ : Fin 2) => (0 : Int))))) = true
+    ∧ isOk (forwardSF (L := 1) (B := 1) (S := 2) wOps ⟨.repaired, .repaired, .repaired⟩ wP1 0
+      (fun _ _ _ => 1) (fun _ _ _ => 1) (fun s _ _ => s.val + 1) .none
+      (SKpm.toModel (.add (fun (_ : Fin 1) (_ : Fin 2) => (0 : Int))))) = true := by
   decide
 
 end Opacus.C14
